@@ -282,14 +282,10 @@ func (r *rewriter) addImport(name, path string) {
 	r.file.Imports = append(r.file.Imports, spec)
 }
 
+// isShimmedNamed: a field that IS a sync / sync/atomic value (its methods take
+// its address; the shim orders the accesses itself). A field that merely points
+// to one (*sync.Cond, *sync.Mutex) is ordinary memory and is tracked.
 func isShimmedNamed(t types.Type) bool {
-	for {
-		if p, ok := t.(*types.Pointer); ok {
-			t = p.Elem()
-			continue
-		}
-		break
-	}
 	if n, ok := t.(*types.Named); ok && n.Obj().Pkg() != nil {
 		switch n.Obj().Pkg().Path() {
 		case "sync", "sync/atomic":
